@@ -12,7 +12,11 @@ Require Import TL.Model.Core TL.Model.Build TL.Proofs.CoreMono TL.Proofs.BuildLe
    in the tie) and whose last node is T's own -- the factory returns a routine that ROUTES T:
    at every depth each member slot holds a routine whose head is the one dispatch gives the member's
    own annotation (after unwrapping NewType / alias / Final / ClassVar and evaluating references), or
-   a delayed proxy for exactly that annotation.  Field names are not part of any key. *)
+   a delayed proxy for exactly that annotation.  Field names are not part of any key.
+   E may hold alias objects (E n = NType v: `type N = ...`, string-valued TypeAliasType objects, possibly recursive):
+   inspection.unwrap goes through them (Build.unwrap E), `routes` is stated up to the equivalence "the name of an
+   alias object stands for its value" (BuildLemmas.aeq, constructor Ro_alias), and a member annotated with a
+   string-valued alias holds the lazy proxy for the reference to its text (example C05_alias_member below). *)
 Theorem C05_build_routes :
   forall (E : env) (dir : bool) (noop_leaf : nat -> bool) (orders : ty -> option (list node)) (T : ty) (pre : list node) (root : node),
     orders (evaluate T) = Some (pre ++ [root]) ->
@@ -107,6 +111,29 @@ Example C05_hyps_satisfiable :
   = Ok (RSeq KList (RStruct 0 [(0, RDelayed (TSeq KList (TName 0)));
                                (1, RUnion true [RNone; RLeaf 0])])).
 Proof. vm_compute. repeat split. Qed.
+
+(* non-vacuity with an alias object as a member:  class N0: a: N6;  N6 = TypeAliasType("N6", "list[N0] | None")
+   (orders as observed on /repo for the root N0); the routing theorem applies and the member slot is the proxy *)
+Definition mBody : ty := TUnion [TSeq KList (TName 0); TNone].
+Definition mE : env := fun n => match n with
+  | 0 => Some (NClass {| cflavour := FDataclass; cfields := [ {| fname := 0; fty := TName 6; fdefault := None |} ]; crequired := [] |})
+  | 6 => Some (NType (TRefTo mBody))
+  | _ => None end.
+Definition mPre : list node := [ {| ntype := TName 6; nunw := TRefTo mBody; ncyc := false |} ].
+Definition mRoot : node := {| ntype := TName 0; nunw := TName 0; ncyc := false |}.
+Example C05_alias_member :
+  order_ok mE true (fun _ => false) [] (mPre ++ [mRoot]) = true /\
+  build_root mE (fun _ => Some (mPre ++ [mRoot])) true (TName 0) = Ok (RStruct 0 [(0, RDelayed (TRefTo mBody))]) /\
+  routes mE true (fun _ => false) (RStruct 0 [(0, RDelayed (TRefTo mBody))]) (TName 0).
+Proof.
+  assert (Ho : order_ok mE true (fun _ => false) [] (mPre ++ [mRoot]) = true) by (vm_compute; reflexivity).
+  split; [exact Ho|].
+  destruct (C05_build_routes mE true (fun _ => false) (fun _ => Some (mPre ++ [mRoot])) (TName 0) mPre mRoot eq_refl Ho eq_refl)
+    as [r [Hb Hr]].
+  assert (Hb' : build_root mE (fun _ => Some (mPre ++ [mRoot])) true (TName 0) = Ok (RStruct 0 [(0, RDelayed (TRefTo mBody))]))
+    by (vm_compute; reflexivity).
+  split; [exact Hb'|]. rewrite Hb' in Hb. injection Hb as <-. exact Hr.
+Qed.
 
 (* non-vacuity of the history theorems: the routine above, built once, on a history of three inputs two of which are
    distinct atoms (3 and 4) that the toy runtime declares == (atom_eq): each keeps its own conversion *)
